@@ -3,7 +3,7 @@ import vlib, trees, gens, laylib
 from vlib import enc
 from checklib import Scenario
 
-RULE = ("two-layer trees x suffix spellings x NULL/empty directory arguments x process-wide drop-in list: econf_readDirs, "
+RULE = ("two-layer trees (40 % with drop-ins that are symbolic links to differently named files) x suffix spellings x NULL/empty directory arguments x process-wide drop-in list: econf_readDirs, "
         "econf_readConfig with PARSING_DIRS of the same two directories, both callback variants with an accepting callback, "
         "and econf_readDirsHistory on the SAME tree; the oracle checks on the implementation's own outputs that the four "
         "results are identical and that the history lists the consulted files in processing order with their paths; "
@@ -17,7 +17,7 @@ def gen(rng, tier):
         confdirs = rng.choice([None, None, [b".conf.d", b".d"]])
         d1, d2 = rng.choice([(b"/usr/etc", b"/etc"), (b"/usr/etc", b"/etc"), (b"/usr/etc", None), (None, b"/etc")])
         layers = [d for d in (d1, d2) if d]
-        cmds = trees.populate(rng, layers, name, sfx, confdirs)
+        cmds = trees.populate(rng, layers, name, sfx, confdirs, links=rng.random() < 0.4)     # drop-ins that are links to differently named files
         if confdirs: cmds.append("confdirs " + ",".join(enc(x) for x in confdirs))
         npre = len(cmds)
         args = "%s %s %s %s x3d x23" % (enc(d1), enc(d2), enc(name), enc(sfx))
